@@ -964,6 +964,25 @@ def main(out_path):
         L.append(f"Definition GUESS_SECOND_LOOK_USES_FROM : bool := {'true' if uses else 'false'}.")
         L.append("")
 
+    with section(L, "Store::acquire_offline: the store-version rule"):
+        pass
+        ao = fn_body(storage, "acquire_offline")
+        older = tri(bool(re.search(r"config\.cargo_vet\.version\s*<\s*current_version\s*&&\s*cfg\.cli\.locked", ao)) or
+                    bool(re.search(r"cfg\.cli\.locked\s*&&\s*config\.cargo_vet\.version\s*<\s*current_version", ao)),
+                    bool(re.search(r"if\s+config\.cargo_vet\.version\s*<\s*current_version\s*\{", ao)),
+                    "older-store test of acquire_offline")
+        newer = tri(bool(re.search(r"config\.cargo_vet\.version\s*>\s*current_version", ao)) and "NewerStore" in ao,
+                    "NewerStore" not in ao, "newer-store test of acquire_offline")
+        raises = tri(bool(re.search(r"config\.cargo_vet\.version\s*=\s*current_version\s*;", ao)),
+                     "OutdatedStore" in ao and not re.search(r"cargo_vet\.version\s*=[^=]", ao),
+                     "version assignment in acquire_offline")
+        L.append("(* storage.rs Store::acquire_offline: an older store is refused only when --locked, a newer one always; an accepted")
+        L.append("   store takes the current version (`config.cargo_vet.version = current_version;`) *)")
+        L.append(f"Definition ACQUIRE_REFUSES_OLDER_ONLY_WHEN_LOCKED : bool := {'true' if older else 'false'}.")
+        L.append(f"Definition ACQUIRE_REFUSES_NEWER : bool := {'true' if newer else 'false'}.")
+        L.append(f"Definition ACQUIRE_RAISES_STORE_VERSION : bool := {'true' if raises else 'false'}.")
+        L.append("")
+
     with section(L, "storage constants"):
         pass
         m = re.search(r"let\s+max_end_date\s*=\s*today\s*\+\s*chrono::Months::new\((\d+)\)", storage)
